@@ -22,6 +22,18 @@
 (* description, burst and period of the limiter) is compared with Choose; the *)
 (* transcription's prediction names the class of a deviation.               *)
 (*                                                                          *)
+(* The consensus-nodes function (IsInConsensusNodesFunc) answers with TWO   *)
+(* independent values: the hash of the suffrage STATE (stateHash) and the   *)
+(* predicate exists(node) (members = suffrage nodes AND candidates). Three  *)
+(* actions change them: SetMembers (a new suffrage state with other         *)
+(* consensus nodes: both change), SetStateHash (a new suffrage state with   *)
+(* the same consensus nodes: only the hash) and SetCandidates (candidates   *)
+(* come and go: exists changes under the SAME state hash). The suffrage     *)
+(* rule is for a node that IS a consensus node at the time of the request:  *)
+(* SuffrageOnlyInConsensus. The constant SufCheck names the order in which  *)
+(* a cached suffrage limiter is checked again ("exists-first" = the code;   *)
+(* "hash-first" = a candidate that trusts an unchanged hash and must fail). *)
+(*                                                                          *)
 (* Part 2, enforcement. The token bucket is part of the cached limiter       *)
 (* (tok, tat: scaled tokens and the time they were counted; a rule of burst *)
 (* b refills b tokens in Per clock ticks). The transcription follows         *)
@@ -53,8 +65,10 @@ CONSTANTS Addrs,      \* subset of {"a1","a2","a3"}: a1 in nets N1 and N2, a2 in
           Tight,      \* TRUE: catalogues of small rules (the bucket empties within a history)
           Warm,       \* TRUE: every history starts with Request(a1, h1, no client id), AddNode(a1)
           Per,        \* clock ticks in which a rule refills its whole burst
-          Rebuild     \* when RateLimiter.Update makes a new (full) bucket: "limit-burst" = the code;
+          Rebuild,    \* when RateLimiter.Update makes a new (full) bucket: "limit-burst" = the code;
                       \* candidates that break the bound: "type-checksum", "always"
+          SufCheck    \* re-validation of a cached suffrage limiter: "exists-first" = the code (exists(node) on every
+                      \* request, then the state hash); candidate "hash-first": an unchanged hash returns the limiter
 
 Nil == [nil |-> TRUE, v |-> <<>>]       \* a rule set that is not set (nil interface)
 Set(x) == [nil |-> FALSE, v |-> x]      \* a rule set
@@ -100,7 +114,8 @@ VARIABLES cid, cidAt,        \* client-id rule set and the time it was set
           nets, netsAt,
           nodes, nodesAt,
           suf, sufAt,        \* suffrage rule map (the rule set itself is never nil)
-          members, stateHash,\* IsInConsensusNodesFunc: consensus nodes and the hash of their state
+          members,           \* IsInConsensusNodesFunc, exists(node): the consensus nodes (suffrage nodes and candidates)
+          stateHash,         \* IsInConsensusNodesFunc, the hash of the suffrage state; NOT a function of members
           def, defAt,        \* default rule map
           known,             \* addresses whose node is known (AddNode)
           cache,             \* [Addrs \X Handlers -> limiter | None]
@@ -182,8 +197,9 @@ Impl(a, hd, c, l) ==
   ELSE IF c # "" /\ ~cid.nil /\ l.t = "clientid" /\ l.at >= cidAt THEN <<l, "cached-clientid">>
   ELSE IF ~nets.nil /\ l.t = "net" /\ l.at >= netsAt THEN <<l, "cached-net">>
   ELSE IF a \in known /\ ~nodes.nil /\ l.t = "node" /\ l.at >= nodesAt THEN <<l, "cached-node">>
-  ELSE IF /\ a \in known /\ l.t = "suffrage" /\ l.at >= sufAt /\ NodeOf[a] \in members
-          /\ (stateHash = l.cs \/ suf[hd] # 0)
+  ELSE IF /\ a \in known /\ l.t = "suffrage" /\ l.at >= sufAt
+          /\ \/ NodeOf[a] \in members /\ (stateHash = l.cs \/ suf[hd] # 0)
+             \/ SufCheck = "hash-first" /\ stateHash = l.cs       \* candidate: same state, exists(node) not asked
        THEN IF stateHash = l.cs THEN <<l, "cached-suffrage">>
             ELSE <<Upd(l, "suffrage", suf[hd], "", stateHash), "suffrage-rehash">>
   ELSE LET p == Prec(a, hd, c, l.t, l.at)
@@ -247,10 +263,18 @@ SetSuf(k)   == /\ suf' = SufSets[k] /\ sufAt' = now
 SetDef(k)   == /\ def' = DefSets[k] /\ defAt' = now
                /\ UNCHANGED <<cid, cidAt, nets, netsAt, nodes, nodesAt, suf, sufAt, members, stateHash, known, cache>>
                /\ Rec([a |-> "SetDefault", set |-> def'])
-\* the consensus nodes change (a new suffrage state): IsInConsensusNodesFunc answers differently
-SetMembers(m) == /\ members' = m /\ stateHash' = now
+\* IsInConsensusNodesFunc answers differently. A new suffrage state with other consensus nodes: hash and exists change
+SetMembers(m) == /\ m # members /\ members' = m /\ stateHash' = now
                  /\ UNCHANGED <<cid, cidAt, nets, netsAt, nodes, nodesAt, suf, sufAt, def, defAt, known, cache>>
                  /\ Rec([a |-> "SetMembers", members |-> m, hash |-> now])
+\* a new suffrage state, the same consensus nodes: only the hash changes
+SetStateHash == /\ stateHash' = now
+                /\ UNCHANGED <<cid, cidAt, nets, netsAt, nodes, nodesAt, suf, sufAt, members, def, defAt, known, cache>>
+                /\ Rec([a |-> "SetStateHash", members |-> members, hash |-> now])
+\* candidates come and go (they are consensus nodes, they are not in the suffrage state): exists changes, the hash stays
+SetCandidates(m) == /\ m # members /\ members' = m
+                    /\ UNCHANGED <<cid, cidAt, nets, netsAt, nodes, nodesAt, suf, sufAt, stateHash, def, defAt, known, cache>>
+                    /\ Rec([a |-> "SetCandidates", members |-> m, hash |-> stateHash])
 
 R(S) == RandomElement(S)
 Cids == ClientIds \cup {""}
@@ -263,18 +287,22 @@ RandomAction(k) ==
     [] k = 15 -> SetNodes(R(NodeKeys))
     [] k = 16 -> SetSuf(R(SufKeys))
     [] k = 17 -> SetDef(R(DefKeys))
-    [] k = 18 -> SetMembers(R(MemberSets))
+    [] k = 18 -> SetMembers(R(MemberSets \ {members}))
+    [] k = 19 \/ k = 20 -> SetCandidates(R(MemberSets \ {members}))
+    [] k = 21 -> SetStateHash
 
 Next == /\ n < MaxSteps
         /\ IF Warm /\ n = 0 THEN Request("a1", "h1", "")
            ELSE IF Warm /\ n = 1 THEN AddNode("a1")
-           ELSE IF Walk THEN RandomAction(R(1..18))
+           ELSE IF Walk THEN RandomAction(R(1..21))
            ELSE \/ \E a \in Addrs, hd \in Handlers, c \in Cids : Request(a, hd, c)
                 \/ \E a \in Addrs : AddNode(a)
                 \/ \E k \in CidKeys : SetCid(k)
                 \/ \E k \in NetKeys : SetNets(k)
                 \/ \E k \in NodeKeys : SetNodes(k)
                 \/ \E m \in MemberSets : SetMembers(m)
+                \/ \E m \in MemberSets : SetCandidates(m)
+                \/ SetStateHash
                 \/ (FullAlphabet \/ Tight) /\ \E k \in SufKeys : SetSuf(k)
                 \/ (FullAlphabet \/ Tight) /\ \E k \in DefKeys : SetDef(k)
 
@@ -304,6 +332,11 @@ PrecedenceOK == IsReq =>
    /\ w[1] \in {"defaultmap", "default"} => SufRule(Last.addr, Last.h) = 0
    /\ w[1] = "default" <=> (w[2] = BuiltIn /\ def[Last.h] = 0 /\ SufRule(Last.addr, Last.h) = 0 /\ NodeRule(Last.addr, Last.h) = 0
                               /\ NetMatch(Last.addr, Last.h) = 0 /\ CidRule(Last.c, Last.h) = 0)
+
+(* the suffrage rule judges a request only while the node of the address IS a consensus node, whatever the state hash
+   says (the statement's "suffrage rule" is the rule for suffrage nodes; true of the transcription, fails for the
+   candidate SufCheck = "hash-first" on  ..., SetCandidates(without the node), Request) *)
+SuffrageOnlyInConsensus == (IsReq /\ Last.impl[1] = "suffrage") => (Last.addr \in known /\ NodeOf[Last.addr] \in members)
 
 ---------------------------------------------------------------------------
 (* Part 2: enforcement. THE STATEMENT's second sentence on the history of the model: take the requests of one limiter
